@@ -19,9 +19,11 @@ def alias (op : String) (args : List String) : String × List String :=
   | "cbor.enc.plain", _ => ("cbor.enc", args)
   | "cert.read.buffer", _ => ("cert.read", args)
   | "cert.write.new", _ => ("cert.write", args)
+  | "cert.write.inplace", [_, b] => ("cert.write", [b])      -- the objects' earlier contents (already written once) leave no trace
   | "bundle.read.buffer", _ => ("bundle.read", args)
   | "sxg.read.buffer", _ => ("sxg.read", args)
   | "mice.dec.copy", _ => ("mice.dec", args)
+  | "cbor.det.cap", _ => ("cbor.det", args)      -- what lies behind the slice's length (spare capacity) is not input
   | "sh.parse.twice", _ => ("sh.parse.pl", args)      -- an earlier parse of the same string (result scribbled over) changes nothing
   | "ib.sha512.handle", [f, _] => ("sha512", [f])     -- where the handle's read position was does not matter
   | "fault.retry", _ => ("fault", args)      -- plus: the same object serialised again afterwards gives the fault-free bytes
